@@ -143,13 +143,13 @@ pub fn c07_prefix_case(ctx: &Ctx, env: &RealEnv, dir: &Path, case: u64, seed: u6
 
 /// C12, process level: exit status 1 and an `n2: error: ` diagnostic.
 pub fn c12_process_case(ctx: &Ctx, env: &RealEnv, dir: &Path, case: u64, seed: u64, rep: &mut Report) {
-    let _ = ctx;
     let mut rng = Rng::new(seed);
     clear_dir(dir);
     let w = crate::sim::World::new(dir.to_path_buf(), Project { manifest: "build.ninja".into(), ..Default::default() });
     let good = "rule r\n  command = true\nbuild out: r in\n";
     std::fs::write(dir.join("in"), "x").unwrap();
-    let kind = rng.below(11);
+    // (C06 borrows the depfile kind: a step whose command succeeded must end in a decision, not in a hang or abort)
+    let kind = if ctx.prop == "C06" { 8 } else { rng.below(11) };
     let mut inv = RInv { j: Some(2), timeout_s: 30, ..Default::default() };
     // for the depfile kinds: bytes the command copies into place as its depfile
     let mut depfile: Option<Vec<u8>> = None;
